@@ -54,3 +54,45 @@ LEVEL_TEXT = ("Seeded search over schedules, clock movements and faults of the r
 LEVEL_NOTE = ("Trusted base: the simulator runtime (simrt/), the instrumenter's semantics-preserving rewrites, testing/synctest of "
               "go1.26.8, and that sync.Map / encoding/gob / runtime maps / xxhash behave atomically and correctly.")
 NOT_APPLICABLE = {}
+
+FO_RULE = ("Scenarios are drawn from the seeded PRNG (clients, keys, Gets with builder scripts, initial entry state per key, "
+           "FailoverConfig, backend kind, API flavour, fault plan) and executed under random / PCT / mostly-sequential "
+           "schedules at call-out and lock granularity. ")
+
+prop("C02", quick={"runs": 8000}, thorough={"runs": 100000000, "budget_s": 600}, level="fault_enumeration",
+     rule=FO_RULE + "Backend Read/Write failures are injected at chosen call ordinals. Non-trivial: two Gets of different clients on "
+     "one key overlapped; distinct = distinct (scenario, schedule signature).",
+     rules=["C02.R1 wrong-key", "C02.R2 unfinished-or-failed-build", "C02.R3 fabricated (nil / zero value with nil error)",
+            "C02.R4 foreign or unknown error"],
+     probes=["other_get_in_flight_at_unexpected_read_error", "other_get_in_flight_at_write_error", "stale_value_and_failing_builder",
+             "background_build", "failed_build", "get_invoked_during_build"])
+prop("C03", quick={"runs": 1000000}, thorough={"runs": 100000000, "budget_s": 900}, exhaustive=True,
+     rule="The decision table is enumerated completely: entry state {absent, fresh, stale within MaxStaleness, stale beyond} x failure "
+     "cached {no, yes} x SyncUpdate x FailHard x MaxStaleness {0, set} x FailedUpdateTTL {default, -1} x builder {ok, error} x "
+     "flavour {Failover/ShardedMap, Failover/SyncMap, FailoverOf/ShardedMapOf} x 3 clock offsets x SyncRead, minus impossible cells; "
+     "each cell is reached by driving the simulated clock, the builder sleeps 1 s of simulated time so that 'Get returned before/after "
+     "the build finished' is observable. Every cell is non-trivial; distinct = distinct (cell, schedule). Thorough repeats all cells "
+     "40 times under different schedules, jitter extremes, logger/stats on.",
+     rules=["C03.<cell-class>: result and build mode of the lone Get equal the documented table; backend and failure cache content after quiescence"],
+     probes=["background_build", "failed_build"])
+prop("C04", quick={"runs": 8000}, thorough={"runs": 100000000, "budget_s": 600},
+     rule=FO_RULE + "Callers cancel contexts, let deadlines pass, overwrite or reuse key buffers after Get returned; backend faults "
+     "are injected. After quiescence everything is expired and one fault-free Get per key is issued. Non-trivial: overlapping Gets on one key.",
+     rules=["C04.R1 stuck (scheduler state, not a timeout)", "C04.R2 lock-leak (VerifKeyLocks()==0 at quiescence)",
+            "C04.R3 cannot-rebuild (follow-up Get must invoke its builder and return its value)",
+            "C04.R4 last-build-lost (every successful build's value was stored under the Get's key)"],
+     probes=["key_overwritten_while_background_build_pending", "ctx_cancelled_with_background_build", "background_build",
+             "get_invoked_during_build"])
+prop("C05", quick={"runs": 8000}, thorough={"runs": 100000000, "budget_s": 600},
+     rule=FO_RULE + "Even runs: SyncRead bursts of 2-8 clients on one missing/expired key; odd runs: sequences of Gets with failing "
+     "builders and clock jumps around FailedUpdateTTL. Non-trivial: overlapping Gets on one key.",
+     rules=["C05.R1 exactly one build per SyncRead burst", "C05.R3 no builder entry / cached error served inside (t, t+0.95*FailedUpdateTTL)",
+            "C05.R4 FailedUpdateTTL=-1 does not cache failures"],
+     probes=["syncread_burst_single_build", "get_inside_failure_window", "get_after_uncached_failure"])
+prop("C06", quick={"runs": 8000}, thorough={"runs": 100000000, "budget_s": 600},
+     rule=FO_RULE + "Caller contexts carry TTL cells (positive, zero, negative), builders call WithTTL 0-3 times in both updateExisting "
+     "modes, callers cancel before/after return or let a deadline pass. Non-trivial: at least one builder invocation.",
+     rules=["C06.R1 final store TTL = reference fold", "C06.R2 stale re-store uses UpdateTTL", "C06.R3 caller context TTL after Get",
+            "C06.R4 background build context: no Err, no deadline, Done never fires, values visible", "C06.R5 SkipRead rebuilds and stores"],
+     probes=["builder_communicated_ttl", "background_build_ctx_observed", "background_build_with_cancelled_caller_ctx",
+             "stale_refresh_write", "lone_skipread_get"])
